@@ -1,6 +1,7 @@
 """C21 — the simulation time grid covers the sequence and every evaluation time (DESIGN.md §4 C21)."""
 import bisect
 import json
+import math
 
 from vlib import common
 from props import _timegrid as tg
@@ -53,11 +54,11 @@ def property_check(ctx, case, code, tt, backends=False):
     if any(not (a < b) for a, b in zip(tt, tt[1:])):
         return bad("grid is not strictly increasing", "grid-order")
 
-    def near(x):
+    def near(x):  # present up to pulser's identity tolerance: near-duplicates are merged (F-08 fix)
         i = bisect.bisect_left(tt, x)
-        return any(0 <= j < len(tt) and tg.ulp_close(tt[j], x) for j in (i - 1, i, i + 1))
+        return any(0 <= j < len(tt) and abs(tt[j] - x) <= tg.TOLU * dur * 1.001 + 4 * math.ulp(x)
+                   for j in (i - 1, i, i + 1))
 
-    import math
     n = math.floor(dur / dt)
     cand = [dur]
     for i in range(n + 1):
@@ -69,8 +70,7 @@ def property_check(ctx, case, code, tt, backends=False):
     for t in req:
         x = float(t) * dur
         cand.append(x)
-        i = bisect.bisect_left(tt, x)  # present up to pulser's identity tolerance (1e-12 relative)
-        if not any(0 <= j < len(tt) and abs(tt[j] - x) <= tg.TOLU * dur for j in (i - 1, i)):
+        if not near(x):
             return bad(f"requested time {t} (abs {x}) is missing from the grid", "grid-missing-requested")
     cand.sort()
     for x in tt:
@@ -78,7 +78,7 @@ def property_check(ctx, case, code, tt, backends=False):
         if not any(0 <= j < len(cand) and tg.ulp_close(cand[j], x) for j in (i - 1, i, i + 1)):
             return bad(f"grid point {x} is neither a multiple of dt nor a requested time", "grid-extra")
     gap = min((b - a) / dur for a, b in zip(tt, tt[1:]))
-    if gap < tg.TOLU:
+    if gap < tg.TOLU * 0.999:  # the adapter merges points with t/T - prev/T < 1e-12 (float)
         k = min(range(len(tt) - 1), key=lambda i: tt[i + 1] - tt[i])
         rp = {"case": case, "pair": [tt[k], tt[k + 1]], "relative_gap": gap, "n_points": len(tt),
               "finding_key": KEY_F08}
@@ -229,6 +229,14 @@ def run(ctx):
         property_check(ctx, c, code, tt, backends=n_backend_witness < 2)
         if len(ctx.violations) > before:
             n_backend_witness += 1
+
+    # ---- corpus regressions (fixed findings): the witnesses must run end-to-end on both backends
+    for c in cases:
+        if c.get("kind") == "corpus" and isinstance(c["dur"], int) and c["dur"] >= 2:
+            for b, r in near_duplicate_in_backends(c).items():
+                if r["code"] != 0:
+                    ctx.violation(f"corpus witness raises on {b} (code {r['code']}): {r['exc']}",
+                                  {"case": c, "backend": b, "exc": r["exc"], "finding_key": KEY_F08})
 
     # ---- correspondence model <-> _get_target_times (bit-exact)
     corr_ok, detail = model_ok, "" if model_ok else "model did not build"
